@@ -530,6 +530,29 @@ def calc_variants(name, cls):
     return ext
 
 
+def natural_scale(calc, d):
+    """sum over band pairs of |factor_omega| |factor_Efermi| |matrix element| through the real __call__ loop:
+    the scale on which a component that vanishes by symmetry is rounding noise"""
+    import copy
+    c2 = copy.copy(calc)
+    F = calc.Formula
+
+    class AbsFormula:
+        def __init__(self, data_K, **kw):
+            self.f = F(data_K, **kw)
+            self.ndim = self.f.ndim
+            self.transformTR = self.f.transformTR
+            self.transformInv = self.f.transformInv
+
+        def trace_ln(self, ik, a, b):
+            return np.abs(self.f.trace_ln(ik, a, b))
+    fo, fe = calc.factor_omega, calc.factor_Efermi
+    c2.Formula = AbsFormula
+    c2.factor_omega = lambda E1, E2: np.abs(fo(E1, E2))
+    c2.factor_Efermi = lambda E1, E2: np.abs(fe(E1, E2))
+    return float(np.abs(c2(d).data).max())
+
+
 def run_dyncalc(case, system, meta, groups, nb, k):
     """the whole declared pipeline: calculator(k) --EnergyResult.transform(TimeReversal|Inversion)--> calculator(-k)"""
     from wannierberri.symmetry.point_symmetry import TimeReversal, Inversion
@@ -567,7 +590,13 @@ def run_dyncalc(case, system, meta, groups, nb, k):
                 break
             exp = res[0].transform(symop).data          # the real declared pipeline
             got = res[1].data
-            scale = max(1e-300, float(np.abs(res[0].data).max()), float(np.abs(got).max()))
+            # a factor inside the formula may itself vanish by symmetry at this k (band velocities at a TRIM ...):
+            # the scale is taken over the whole k alphabet of the model
+            skey = ("scale", case["model"], name, label)
+            if skey not in _CACHE:
+                _CACHE[skey] = max(natural_scale(calc, dcls(system, grid=grid, k_list=np.array([np.array(kx, dtype=float)])))
+                                   for kx in K_ALPHABET.values())
+            scale = max(1e-300, _CACHE[skey])
             err = float(np.abs(got - exp).max()) / scale
             if err <= TOL:
                 status = "gauge" if image else "ok"
